@@ -19,6 +19,7 @@ type Prop struct {
 	Title          string   `json:"title"`
 	Packages       []string `json:"packages"`
 	Functions      []string `json:"functions"`
+	ThoroughOnly   []string `json:"thorough_functions"` // verified in the thorough tier only (path-heavy functions)
 	Lemmas         []string `json:"lemmas"`
 	MinObligations int      `json:"min_obligations"`
 	Bounded        []struct {
@@ -131,7 +132,11 @@ func cmdCheck(args []string) int {
 
 	var ctxs []*Ctx
 	var undec []string
-	for _, key := range prop.Functions {
+	fnList := append([]string{}, prop.Functions...)
+	if *tier == "thorough" {
+		fnList = append(fnList, prop.ThoroughOnly...)
+	}
+	for _, key := range fnList {
 		f := P.Funcs[key]
 		if f == nil {
 			undec = append(undec, "function under contract not found: "+key)
